@@ -135,6 +135,9 @@ structure Cfg where
   /-- `true` = the tree with the fix "a null blocked service is an error, not a nil dereference";
   `false` = the tree as found. -/
   svcNilCheck : Bool
+  /-- `true` = the tree with the fix "an index entry whose key is the name of another cache file is
+  invalid"; `false` = the tree as found.  Only `classify` looks at it. -/
+  rejectReserved : Bool := true
 
 /-- `serviceblock.Filter.Refresh` after the text has been obtained: decode, convert. -/
 def svcResult (E : Env) (cfg : Cfg) (c : Nat) : SvcRes :=
@@ -219,6 +222,114 @@ def insertBy (r : Entry → Nat) (x : Entry) : List Entry → List Entry
 def isort (r : Entry → Nat) : List Entry → List Entry
   | [] => []
   | x :: xs => insertBy r x (isort r xs)
+
+/-! ### The index document as decoded: key strings, `validate`, `compare`, cache-file names
+
+`encoding/json` hands `loadIndex` a list of `*indexRespFilter`: a JSON `null` or an object with the
+strings `filterKey` and `downloadUrl`.  Here the key is its list of bytes; `filter.NewID`,
+`indexRespFilter.validate`, `indexRespFilter.compare` and the stable sort are modelled on those
+bytes; what `net/url` makes of `downloadUrl` stays a parameter (`urlParses`).  `classify` takes a
+decoded entry to the abstract `Entry` the loops work with. -/
+
+/-- The bytes of an ASCII string literal. -/
+def bytes (s : String) : List Nat := s.toList.map Char.toNat
+
+/-- One element of `filters` as decoded. -/
+structure RawEntry where
+  /-- a JSON `null`: a nil `*indexRespFilter` -/
+  null : Bool
+  /-- the bytes of `filterKey` -/
+  key : List Nat
+  /-- `downloadUrl == ""` -/
+  urlEmpty : Bool
+  /-- `agdhttp.ParseHTTPURL` accepts `downloadUrl` (`net/url`: a parameter) -/
+  urlParses : Bool
+  /-- the URL -/
+  url : Nat
+deriving Repr, DecidableEq
+
+/-- `firstNonIDRune(s, true)` finds nothing at this byte: printable, non-blank ASCII other than a
+slash.  Every byte of a multi-byte rune is ≥ 0x80 and the rune itself is > '~', so the test on bytes
+and the test on runes agree. -/
+def idByteOk (b : Nat) : Bool := decide (0x21 ≤ b) && decide (b ≤ 0x7e) && !(b == 0x2f)
+
+/-- `filter.NewID` accepts: 1 to 128 bytes (`MinIDLen`, `MaxIDLen`), all of them `idByteOk`. -/
+def idValid (k : List Nat) : Bool :=
+  decide (1 ≤ k.length) && decide (k.length ≤ 128) && k.all idByteOk
+
+/-- The names that are not the name of a file of a rule list's own in the cache directory: the
+directory itself and its parent, the two index files, and the files of the safe-search and
+hash-prefix filters, which are named after their fixed IDs (`isReservedKey`, third `fix:`). -/
+def reservedNames : List (List Nat) :=
+  [bytes ".", bytes "..", bytes "services.json", bytes "filters.json", bytes "adult_blocking",
+   bytes "general_safe_search", bytes "newly_registered_domains", bytes "safe_browsing",
+   bytes "youtube_safe_search"]
+
+/-- `indexRespFilter.validate` and `agdhttp.ParseHTTPURL` as `toInternal` and
+`keepInvalidRuleLists` see them.  `keyOk`: non-nil and `NewID` accepts the key (all that
+`keepInvalidRuleLists` asks for); `urlOk`: everything else `toInternal` asks for — a non-empty URL
+that parses and, on the tree with the third fix (`rejectReserved`), a key that is not reserved.
+`num` names key strings by numbers. -/
+def classify (rejectReserved : Bool) (num : List Nat → Nat) (e : RawEntry) : Entry :=
+  { key := num e.key,
+    keyOk := !e.null && idValid e.key,
+    urlOk := !e.null && !e.urlEmpty && e.urlParses &&
+      !(rejectReserved && reservedNames.contains e.key),
+    url := e.url }
+
+/-- `cmp.Compare(a, b) ≤ 0` on strings: lexicographic on bytes. -/
+def bytesLe : List Nat → List Nat → Bool
+  | [], _ => true
+  | _ :: _, [] => false
+  | x :: xs, y :: ys => if x < y then true else if y < x then false else bytesLe xs ys
+
+/-- `a.compare(b) ≤ 0` (`indexRespFilter.compare`): nil entries sort after all others. -/
+def rawLe (a b : RawEntry) : Bool :=
+  if a.null then b.null else if b.null then true else bytesLe a.key b.key
+
+/-- Insert `x`, which precedes all of the list in the document, into the sorted list: it moves in
+front of exactly those entries that compare strictly greater. -/
+def insertRaw (x : RawEntry) : List RawEntry → List RawEntry
+  | [] => [x]
+  | y :: ys => if rawLe x y then x :: y :: ys else y :: insertRaw x ys
+
+/-- `slices.SortStableFunc(resp.Filters, (*indexRespFilter).compare)`. -/
+def sortRaw : List RawEntry → List RawEntry
+  | [] => []
+  | x :: xs => insertRaw x (sortRaw xs)
+
+/-- What `loadIndex` and the validation make of a decoded document: sorted, then classified. -/
+def loadRaw (rejectReserved : Bool) (num : List Nat → Nat) (es : List RawEntry) : List Entry :=
+  (sortRaw es).map (classify rejectReserved num)
+
+/-! ### The cache directory as one name space
+
+`St` keeps `filters.json`, `services.json` and the rule-list files in separate slots.  In the
+directory they are names: a rule list with key `k` lives in `cacheDir/k`
+(`filepath.Join(s.cacheDir, fltIDStr)`). -/
+
+/-- The files of the cache directory by name. -/
+abbrev Dir := List Nat → Option Nat
+
+def Dir.write (d : Dir) (name : List Nat) (c : Nat) : Dir := fun x => if x = name then some c else d x
+
+/-- The cache file of the rule list with key `k`. -/
+def ruleListFile (k : List Nat) : List Nat := k
+
+def indexFile : List Nat := bytes "filters.json"
+def servicesFile : List Nat := bytes "services.json"
+
+/-- The files a round writes for the entries `toInternal` lets through, given what each download
+yields (`got e = some c`: the cache file of `e` is replaced by `c`). -/
+def writeLists (rejectReserved : Bool) (got : RawEntry → Option Nat) (d : Dir) (es : List RawEntry) :
+    Dir :=
+  es.foldl (fun d e =>
+    let c := classify rejectReserved (fun _ => 0) e
+    if c.keyOk && c.urlOk then
+      match got e with
+      | some x => d.write (ruleListFile e.key) x
+      | none => d
+    else d) d
 
 /-- `Default.refresh`: the new state and whether it returned `nil`. -/
 def refreshStorage (E : Env) (cfg : Cfg) (s : St) (R : Round) : St × Bool :=
